@@ -41,6 +41,9 @@ ASSUMPTIONS = [
 
 RUN = "0"
 DT = sl.DT_END
+# all scratch directories live on tmpfs when there is one: thousands of create / truncate / delete cycles on a
+# disk-backed /tmp cost seconds each under load, and nothing here needs a real disk
+SHM = "/dev/shm" if os.path.isdir("/dev/shm") and os.access("/dev/shm", os.W_OK) else None
 DEBUG = bool(os.environ.get("C04_DEBUG"))
 
 # ----------------------------------------------------------------------------- plugin graphs
@@ -264,21 +267,29 @@ def _child(scen, root, fault, trace_path):
     try:
         st = mk_context(scen, root)
         do_make(scen, st)
-        return "success"
+        outcome = "success"
     except Exception as e:  # noqa: BLE001
-        return "raised:" + sl.err_name(e)
+        outcome = "raised:" + sl.err_name(e)
     finally:
         ffs.uninstall()
+    return outcome, [o.as_dict() for o in ffs.ops]
 
 
 def run_attempt(scen, root, fault, scratch):
+    """one `make` on the directory.  Process death needs a real process to die: those attempts run in a fork()ed
+    child (trace streamed to a side file); everything else runs in this process."""
+    if fault is None or not fault["kind"].startswith("die"):
+        import contextlib
+        import io
+        with contextlib.redirect_stdout(io.StringIO()), contextlib.redirect_stderr(io.StringIO()):
+            return _child(scen, root, fault, None)
     trace_path = os.path.join(scratch, "trace.jsonl")
     if os.path.exists(trace_path):
         os.remove(trace_path)
-    status, res = faultfs.run_forked(lambda: _child(scen, root, fault, trace_path), os.path.join(scratch, "result.pkl"), timeout=120)
+    status, res = faultfs.run_forked(lambda: _child(scen, root, fault, trace_path)[0], os.path.join(scratch, "result.pkl"), timeout=120)
     trace = faultfs.read_trace(trace_path)
     if status == "ok":
-        outcome = res
+        outcome = res                     # the fault point was never reached
     elif status == "died":
         outcome = "died"
     else:
@@ -348,7 +359,7 @@ def prepare(scen_name):
     if scen_name in _PREP:
         return _PREP[scen_name]
     scen = SCEN[scen_name]
-    base = tempfile.mkdtemp(prefix=f"c04_{scen_name}_")
+    base = tempfile.mkdtemp(prefix=f"c04_{scen_name}_", dir=SHM)
     scratch = os.path.join(base, "scratch")
     os.makedirs(scratch)
     # reference: clean run
@@ -413,7 +424,7 @@ def execute(case):
     """run the case on the real code: faulted attempt (optionally a faulted retry), then a clean retry"""
     p = prepare(case["scen"])
     scen = p["scen"]
-    work = tempfile.mkdtemp(prefix="c04w_")
+    work = tempfile.mkdtemp(prefix="c04w_", dir=SHM)
     scratch = os.path.join(work, "scratch")
     root = os.path.join(work, "root")
     os.makedirs(scratch)
